@@ -315,4 +315,46 @@ example : ∃ E : MCmp, (∀ a, E a a = true) ∧ (∀ a b, E a b = E b a) ∧
   · intro a b; simp [eq_comm]
   · intro a b c; simp; intro h1 h2; rw [h1, h2]
 
+/-! ### Collection.Pull with an include filter (`WithInclude`) -/
+
+/-- Include first, then the read-mask filter, then the equivalence — on the change as the subscriber sees it.
+For every equivalence E under which an absent value is never equivalent to a value (true of every
+`cmp.Message` built by `Equal`/`And`; see the next theorem), every include predicate, filter and event:
+* old and new both outside the include filter: nothing is forwarded;
+* the write moves the item across the include boundary: the change is ALWAYS delivered, as an ADD (no old
+  value) or a REMOVE (no new value) — whatever E says about the stored old and new values;
+* both inside: delivered iff the filtered old and new values are not E-equivalent. -/
+theorem C16_include_then_equivalence (E : MCmp) (flt : Val → Val) (f : Val → Bool) (ev : CEvent)
+    (hnil : ∀ v, E none (some v) = false ∧ E (some v) none = false) :
+    (visible f ev.old = false → visible f ev.new = false → collPullStep (some E) flt (some f) ev = none) ∧
+    (visible f ev.old = false → visible f ev.new = true →
+      collPullStep (some E) flt (some f) ev = some ⟨none, ev.new.map flt, true⟩) ∧
+    (visible f ev.old = true → visible f ev.new = false →
+      collPullStep (some E) flt (some f) ev = some ⟨ev.old.map flt, none, true⟩) ∧
+    (visible f ev.old = true → visible f ev.new = true →
+      collPullStep (some E) flt (some f) ev =
+        some ⟨ev.old.map flt, ev.new.map flt, !E (ev.old.map flt) (ev.new.map flt)⟩) := by
+  obtain ⟨o, n⟩ := ev
+  refine ⟨?_, ?_, ?_, ?_⟩ <;> intro ho hn
+  · cases o <;> cases n <;> simp_all [collPullStep, includeAdjust, visible]
+  · cases n with
+    | none => simp [visible] at hn
+    | some v =>
+      cases o <;> simp_all [collPullStep, includeAdjust, visible, (hnil (flt v)).1]
+  · cases o with
+    | none => simp [visible] at ho
+    | some v =>
+      cases n <;> simp_all [collPullStep, includeAdjust, visible, (hnil (flt v)).2]
+  · cases o <;> cases n <;> simp_all [collPullStep, includeAdjust, visible]
+
+/-- The hypothesis of `C16_include_then_equivalence` holds for every `cmp.Equal(...)`: nil only equals nil. -/
+theorem C16_equal_absent_never_equivalent (cs : List VCmp) (v : Val) :
+    equal cs none (some v) = false ∧ equal cs (some v) none = false := by
+  simp [equal, compare]
+
+/-- Without an include filter the loop is the one of the theorems above. -/
+theorem C16_include_none (E : Option MCmp) (flt : Val → Val) (events : List CEvent) :
+    collPullLoopI E flt none events = (collPullLoop E flt events).map some :=
+  collPullLoopI_none E flt events
+
 end ScVerif.C16
